@@ -782,6 +782,9 @@ func (t *truePort) is1(v ssa.Value, depth int) bool {
 			if refs := al.Referrers(); refs != nil {
 				for _, r := range *refs {
 					if st, ok := r.(*ssa.Store); ok && st.Addr == al {
+						if isReturnSpill(st) {
+							continue // `return …, 0, err` written into a named result: read by nobody but the return
+						}
 						n++
 						if !t.is(st.Val, depth+1) {
 							return false
@@ -1263,4 +1266,34 @@ func checkQuota(c *engine.Ctx, rule string) {
 		}
 	}
 	c.Floor(n, 5)
+}
+
+// isReturnSpill: the store writes an operand of a return statement into a named result cell (functions with defers keep
+// their results in cells): it sits in a block that ends with the return and nothing but the return reads the cell after it.
+func isReturnSpill(st *ssa.Store) bool {
+	b := st.Block()
+	if b == nil || len(b.Instrs) == 0 {
+		return false
+	}
+	if _, ok := b.Instrs[len(b.Instrs)-1].(*ssa.Return); !ok {
+		return false
+	}
+	after := false
+	for _, in := range b.Instrs {
+		if in == ssa.Instruction(st) {
+			after = true
+			continue
+		}
+		if !after {
+			continue
+		}
+		if _, ok := in.(*ssa.RunDefers); ok {
+			// what follows are the loads feeding the return
+			return true
+		}
+		if ld, ok := in.(*ssa.UnOp); ok && ld.X == st.Addr {
+			return false
+		}
+	}
+	return false
 }
